@@ -350,7 +350,7 @@ func sysGroupCase(idx int, muxed, window bool) (string, []int, error) {
 }
 
 func runHandoff(cfg *hx.RunCfg) error {
-	hx.Quiet()
+	quiet()
 	hooks.install()
 	g := hx.NewGen(cfg.Seed)
 	var cases []string
